@@ -265,6 +265,7 @@ func outBase() string { return envOr("VERIF_OUT", filepath.Join(verifDir, "out")
 func runChild(prop, tier, only, resultPath string, seed int) {
 	t0 := time.Now()
 	res := &HarnessResult{Harness: only, Status: "error", Bounds: map[string]string{}}
+	checkpointPath = resultPath
 	// memory watchdog: an exploration that needs more than the cap is reported as inconclusive instead of being
 	// killed by the kernel (which would look like an engine crash)
 	go func() {
@@ -764,8 +765,17 @@ func runParent(prop, tier, only string, jobs int, list bool, seed int) int {
 				r.Msg = "child failed: " + err.Error()
 			}
 			if timedOut {
-				r.Status = "inconclusive"
-				r.Msg = fmt.Sprintf("harness wall-clock limit of %v exceeded", limit)
+				if len(r.Violations) > 0 {
+					// a counterexample was found (and replayed where replayable) before the limit: it stands
+					r.Status = "violation"
+					r.Msg = fmt.Sprintf("harness wall-clock limit of %v exceeded after %d obligations; the violation found before that is reported", limit, len(r.Obligations))
+				} else {
+					r.Status = "inconclusive"
+					r.Msg = fmt.Sprintf("harness wall-clock limit of %v exceeded (%d obligations decided before)", limit, len(r.Obligations))
+				}
+			} else if r.Status == "partial" {
+				r.Status = "error"
+				r.Msg = "child ended without a final result"
 			}
 			results[i] = r
 		}(i, m)
